@@ -15,10 +15,12 @@ from ..kernel import Violation, SimHang
 
 Counter = collections.Counter
 OP_BUDGET = 40000
-ALPHA = ['a', 'b', 'c', 'x1', 'a b', '']
+ALPHA = ['a', 'b', 'c', 'x1', 'a b', '', 'cafe\u0301', 'caf\u00e9']
 ALPHA17 = ['a', 'b', 'x1', 'class', 'a b', '1x', 'a.b', '', 'get2', 'c',
            '\u00e9t\u00e9', 'n\u00f1', 'None', 'd', 'e', 'f_g', 'handles', 'maps',
-           '__meta__', '__', '___', '__icon.png__', '_x', '_']
+           '__meta__', '__', '___', '__icon.png__', '_x', '_',
+           # identifiers that normalisation (NFC / NFKC) would merge
+           'cafe\u0301', 'caf\u00e9', '\ufb01le', 'file', '\u00aa', 'a']
 SPLIT = '/'
 
 
